@@ -71,6 +71,8 @@ streampos FileTools::getFileSize(const std::string& filename)
 std::string FileTools::getParent(const std::string& path, char dirSep)
 {
   // Position of file name:
+  if (path.find_last_of(dirSep) == string::npos)
+    return ""; // No parent in this path.
   ptrdiff_t begin = static_cast<ptrdiff_t>(path.find_last_of(dirSep));
 
   // Copy string and delte filename:
